@@ -204,6 +204,101 @@ def run_x(cmd_args, timeout=1800):
         return {}
 
 
+def crashed(rc):
+    """the process was killed by a signal (memory fault / abort inside the library): data, not a tool error"""
+    return rc < 0 or rc in (132, 134, 135, 136, 139)
+
+
+def run_x_sched(scheds, sfile, tfile, extra=(), timeout=3600, binary=None):
+    """yx yata-run over `scheds` (written to sfile, trace to tfile).  If the process is killed by a signal the
+    schedules are bisected; a behaviour that kills its process on its own is recorded as
+    reset + {"k": "crash"} (V: C01_NoFailure / the engine's own failure predicate).  Returns the stats dict."""
+    binary = binary or YX
+
+    def run(part, sf, tf):
+        with open(sf, "w") as f:
+            for s in part:
+                f.write(json.dumps(s) + "\n")
+        rc, out = sh([binary, "yata-run", "--in", sf, "--out", tf] + list(extra), timeout=timeout)
+        if rc == 0:
+            try:
+                st = json.loads(out.strip().splitlines()[-1])
+            except Exception:
+                st = {}
+            return {"behaviours": st.get("behaviours", len(part)), "events": st.get("events", 0), "crashes": 0}
+        if not crashed(rc):
+            raise ToolError("yx yata-run failed (rc %d) on %s: %s" % (rc, sf, out[-2000:]))
+        if len(part) == 1:
+            s = part[0]
+            with open(tf, "w") as f:
+                f.write(json.dumps({"bid": s["bid"], "cfg": s["cfg"], "k": "reset"}) + "\n")
+                f.write(json.dumps({"k": "crash", "rc": rc}) + "\n")
+            return {"behaviours": 1, "events": 1, "crashes": 1}
+        h = len(part) // 2
+        a = run(part[:h], sf + ".a", tf + ".a")
+        b = run(part[h:], sf + ".b", tf + ".b")
+        with open(tf, "w") as out_f:
+            for x in (tf + ".a", tf + ".b"):
+                with open(x) as f:
+                    shutil.copyfileobj(f, out_f)
+        for x in (sf + ".a", sf + ".b", tf + ".a", tf + ".b"):
+            if os.path.exists(x):
+                os.remove(x)
+        return {k: a[k] + b[k] for k in a}
+
+    st = run(scheds, sfile, tfile)
+    # keep the complete schedule file for replay / debugging
+    with open(sfile, "w") as f:
+        for s in scheds:
+            f.write(json.dumps(s) + "\n")
+    return st
+
+
+def run_x_random(sfile, tfile, args, behaviours, timeout=3600):
+    """yx yata-random; survives process deaths: the journalled behaviour becomes reset + crash, the run resumes behind it.
+    Returns (schedules, crashes)."""
+    scheds, crashes, start = [], 0, 0
+    open(tfile, "w").close()
+    while start < behaviours:
+        s1, t1 = sfile + ".part", tfile + ".part"
+        rc, out = sh([YX, "yata-random", "--out-sched", s1, "--out", t1, "--behaviours", str(behaviours), "--from", str(start)] + list(args), timeout=timeout)
+        done = []
+        if os.path.exists(s1):
+            with open(s1) as f:
+                done = [json.loads(ln) for ln in f if ln.strip()]
+        if rc != 0 and not crashed(rc):
+            raise ToolError("yx yata-random failed (rc %d): %s" % (rc, out[-2000:]))
+        # only complete behaviours of the trace (a crash may leave a partial tail only if flushing was interrupted)
+        with open(tfile, "a") as o:
+            if os.path.exists(t1):
+                with open(t1) as f:
+                    lines = f.readlines()
+                if rc != 0:
+                    starts = [i for i, ln in enumerate(lines) if ln.startswith('{"bid":')]
+                    lines = lines[:starts[len(done)]] if len(starts) > len(done) else lines
+                o.writelines(lines)
+            scheds += done
+            if rc == 0:
+                break
+            cur = sfile + ".part.cur"
+            if not os.path.exists(cur):
+                raise ToolError("yx yata-random was killed (rc %d) without a journal" % rc)
+            with open(cur) as f:
+                j = json.load(f)
+            o.write(json.dumps({"bid": j["bid"], "cfg": j["cfg"], "k": "reset"}) + "\n")
+            o.write(json.dumps({"k": "crash", "rc": rc}) + "\n")
+            scheds.append({"bid": j["bid"], "cfg": j["cfg"], "steps": j["steps"]})
+            crashes += 1
+            start = j["b"] + 1
+    for x in (sfile + ".part", tfile + ".part", sfile + ".part.cur"):
+        if os.path.exists(x):
+            os.remove(x)
+    with open(sfile, "w") as f:
+        for s in scheds:
+            f.write(json.dumps(s) + "\n")
+    return scheds, crashes
+
+
 def split_trace(trace, parts, outdir):
     """Splits a trace at `reset` boundaries into <= parts files of similar size."""
     os.makedirs(outdir, exist_ok=True)
